@@ -261,6 +261,10 @@ def rule_schema(ctx, model):
                 ctx.check("C13.schema", ok, w, n.stmt, "index on unknown table/column", "index columns exist")
             continue
         t = model.tables.get(st.table)
+        if t is None and st.table.lower().startswith("sqlite_"):
+            # SQLite's own bookkeeping tables (sqlite_sequence, sqlite_master): reading them is fine, writing is not
+            ctx.check("C13.schema", st.verb == "SELECT", w, n.stmt, "an internal SQLite table (%s) is modified" % st.table, "reads SQLite's own %s" % st.table)
+            continue
         if t is None:
             ctx.violate("C13.schema", w, n.stmt, "statement addresses table %r which no store creates" % st.table)
             continue
